@@ -285,12 +285,10 @@ where
                 // we use sampling without replacement in [0..m-1] so we can have each k only once as we exit loop before m iterations!
                 let k = self.permut_generator.next(&mut rng);
                 assert!(k < self.m);
-                let inserted =
+                // a value rejected at slot k can still be accepted by a slot visited later, so we must go on
+                let _inserted =
                     self.min_store
                         .update_with_maxtracker(k, &x, i, &mut self.max_tracker);
-                if !inserted {
-                    break;
-                }
                 // x is growing, so even if last update was possible at slot k, it is possible another value of x
                 // cannot be inserted (if k was last possible index), if no update possible after preceding update, we can exit
                 if !self.max_tracker.is_update_possible(x) {
